@@ -40,7 +40,7 @@ PROPS = {
         technique="Lean 4 proof (loop invariant by induction on fuel: accumulated ops denote the consumed prefix) + differential correspondence across engines",
     ),
     "C02": dict(
-        modules=["Copia.Props.C02"], namespaces=["Copia.C02"], runner="bb", bb_module="bb_bisync",
+        modules=["Copia.Props.C02", "Copia.Props.C02b"], namespaces=["Copia.C02"], runner="bb", bb_module="bb_bisync",
         assumptions=_BI_ASSUME, trusted_base=_BI_TB,
         level_text="Kernel-checked WHOLE-RUN theorem `no_version_lost` for the model of `copia bisync` (scan, reconcile against the trusted archive, apply the whole plan to the live trees), for every pair of trees and every archive: "
                    "under NoNameClash the run never stops on an I/O error and every content either side held before is held by BOTH sides afterwards, unless it was exactly the recorded base at its path and the other side had changed or deleted it. "
@@ -51,7 +51,7 @@ PROPS = {
         technique="Lean 4 proof (run invariant by induction over the plan, case analysis over the reconcile table) + executable-model correspondence on histories + version-survival oracle",
     ),
     "C06": dict(
-        modules=["Copia.Props.C06"], namespaces=["Copia.C06"], runner="bb", bb_module="bb_bisync",
+        modules=["Copia.Props.C06", "Copia.Props.C02b"], namespaces=["Copia.C06"], runner="bb", bb_module="bb_bisync",
         assumptions=_BI_ASSUME, trusted_base=_BI_TB,
         level_text="Kernel-checked WHOLE-RUN theorems for the model of `copia bisync`, for every pair of trees and every archive, under NoNameClash: `converges` (the run completes; afterwards A and B hold the same content at every path and the archive written records exactly that tree) "
                    "and `second_run_noop` (the next run plans nothing, reports no conflict and leaves both trees as they are), `conflict_outcome` (a divergent edit ends on both sides as the greater-hash version at the path and the other at the conflict-copy name), `swap_run` (naming the roots the other way round leaves the same bytes at every path on both sides, for a total antisymmetric hash order). For all maps: a converged pair with a matching record plans nothing; swapping the roots mirrors every decision. "
@@ -179,7 +179,7 @@ PROPS = {
         technique="Lean 4 proof (direct from the model's definition, induction over ops for bounds) + differential correspondence on corrupted inputs",
     ),
     "C16": dict(
-        modules=["Copia.Props.C16"], namespaces=["Copia.C16"], runner="rust", needs_cli=False,
+        modules=["Copia.Props.C16", "Copia.Props.C17b"], namespaces=["Copia.C16"], runner="rust", needs_cli=False,
         assumptions=_DELTA_ASSUME + ["block sizes 0 < bs ≤ 65536 and byte-valued sources (the C17 domain) for the checksum-threading invariant",
                                      "edit_bound needs the basis length to be a multiple of the block size (as the property's `file of distinct blocks`); distinctness of the blocks turned out not to be needed"],
         trusted_base=_DELTA_TB,
@@ -190,7 +190,7 @@ PROPS = {
         technique="Lean 4 proof (scan = textbook by induction with the Good checksum invariant from C17) + differential correspondence",
     ),
     "C17": dict(
-        modules=["Copia.Props.C17"], namespaces=["Copia.C17"], runner="rust",
+        modules=["Copia.Props.C17", "Copia.Props.C17b"], namespaces=["Copia.C17"], runner="rust",
         assumptions=COMMON_ASSUME + [
             "usize is 64 bits (`as u64` of a length never truncates)",
             "release semantics: plain + - * wrap; the theorems prove no wrap happens on the property's domain, so a debug build (which would panic instead) agrees",
